@@ -19,10 +19,12 @@ int _skinny_has_vec256(void) { return sym_has256 & 1; }
 #define P(x) skinny128_parallel_ecb_##x
 #define OBJ_T Skinny128ParallelECB_t
 #define CTX_T Skinny128Key_t
-void _skinny128_parallel_encrypt_vec128(void *o, const void *i, const Skinny128Key_t *k) { (void)o; (void)i; (void)k; }
-void _skinny128_parallel_decrypt_vec128(void *o, const void *i, const Skinny128Key_t *k) { (void)o; (void)i; (void)k; }
-void _skinny128_parallel_encrypt_vec256(void *o, const void *i, const Skinny128Key_t *k) { (void)o; (void)i; (void)k; }
-void _skinny128_parallel_decrypt_vec256(void *o, const void *i, const Skinny128Key_t *k) { (void)o; (void)i; (void)k; }
+/* batch stubs: the data they would produce is C07's subject; here they only leave a mark in the output so that a call made
+   before the arguments are validated is visible */
+void _skinny128_parallel_encrypt_vec128(void *o, const void *i, const Skinny128Key_t *k) { (void)i; (void)k; memset(o, 0xEE, 64); }
+void _skinny128_parallel_decrypt_vec128(void *o, const void *i, const Skinny128Key_t *k) { (void)i; (void)k; memset(o, 0xEE, 64); }
+void _skinny128_parallel_encrypt_vec256(void *o, const void *i, const Skinny128Key_t *k) { (void)i; (void)k; memset(o, 0xEE, 128); }
+void _skinny128_parallel_decrypt_vec256(void *o, const void *i, const Skinny128Key_t *k) { (void)i; (void)k; memset(o, 0xEE, 128); }
 #elif CIPHER == 2
 #include "skinny64-cipher.c"
 #include "skinny64-parallel.c"
@@ -30,8 +32,8 @@ void _skinny128_parallel_decrypt_vec256(void *o, const void *i, const Skinny128K
 #define P(x) skinny64_parallel_ecb_##x
 #define OBJ_T Skinny64ParallelECB_t
 #define CTX_T Skinny64Key_t
-void _skinny64_parallel_encrypt_vec128(void *o, const void *i, const Skinny64Key_t *k) { (void)o; (void)i; (void)k; }
-void _skinny64_parallel_decrypt_vec128(void *o, const void *i, const Skinny64Key_t *k) { (void)o; (void)i; (void)k; }
+void _skinny64_parallel_encrypt_vec128(void *o, const void *i, const Skinny64Key_t *k) { (void)i; (void)k; memset(o, 0xEE, 64); }
+void _skinny64_parallel_decrypt_vec128(void *o, const void *i, const Skinny64Key_t *k) { (void)i; (void)k; memset(o, 0xEE, 64); }
 #else
 #include "mantis-cipher.c"
 #include "mantis-parallel.c"
@@ -39,7 +41,7 @@ void _skinny64_parallel_decrypt_vec128(void *o, const void *i, const Skinny64Key
 #define P(x) mantis_parallel_ecb_##x
 #define OBJ_T MantisParallelECB_t
 #define CTX_T MantisKey_t
-void _mantis_parallel_crypt_vec128(void *o, const void *i, const void *t, const MantisKey_t *k) { (void)o; (void)i; (void)t; (void)k; }
+void _mantis_parallel_crypt_vec128(void *o, const void *i, const void *t, const MantisKey_t *k) { (void)i; (void)t; (void)k; memset(o, 0xEE, 64); }
 #endif
 #undef calloc
 #undef free
@@ -68,7 +70,11 @@ void vh_free(void *p)
     free(p);
 }
 
+#ifdef OB_ERR
+#define NB 18                                  /* room for two full 128-byte batches and a partial block */
+#else
 #define NB 3                                   /* blocks per processing call in these obligations */
+#endif
 uint8_t sym_key[48], sym_data[NB * BLK], sym_tw[NB * BLK], sym_handle[sizeof(OBJ_T)], sym_fill[sizeof(CTX_T)];
 static void sym_inputs(void) { SYM_U8A(sym_key); SYM_U8A(sym_data); SYM_U8A(sym_tw); SYM_U8A(sym_handle); SYM_U8A(sym_allocfail); SYM_VAL(sym_has128); SYM_VAL(sym_has256); }
 
@@ -91,7 +97,10 @@ static int op_enc(OBJ_T *o, uint8_t *out, const uint8_t *in, size_t n)
 static int op_dec(OBJ_T *o, uint8_t *out, const uint8_t *in, size_t n)
 {
 #if CIPHER == 3
-    P(swap_modes)(o); return P(crypt)(out, in, sym_tw, n, o);
+#ifndef OB_ERR
+    P(swap_modes)(o);
+#endif
+    return P(crypt)(out, in, sym_tw, n, o);
 #else
     return P(decrypt)(out, in, n, o);
 #endif
@@ -193,7 +202,10 @@ void harness(void)
     HARNESS_BEGIN();
     sym_inputs();
     { CTX_T nd; ctx = nd; }
-    memcpy(&o, sym_handle, sizeof o); o.ctx = &ctx; o.vtable = 0; o.parallel_size = 8 * BLK;
+    for (int i = 0; i < MAXBLK; i++) ASSUME(sym_allocfail[i] == 0);
+    memcpy(&o, sym_handle, sizeof o);
+    { OBJ_T t; memset(&t, 0, sizeof t); CHECK(P(init)(&t) == 1, "init succeeds"); o.vtable = t.vtable; o.parallel_size = t.parallel_size; vh_free(t.ctx); }   /* back end chosen symbolically */
+    o.ctx = &ctx;
     before = o; ctxb = ctx; SYM_U8A(out); memcpy(outb, out, sizeof out);
     int r = -1;
 #if ERRCASE == 1
@@ -222,6 +234,12 @@ void harness(void)
 #else
     r = P(decrypt)(out, sym_data, NB * BLK, 0);
 #endif
+#elif ERRCASE == 10
+    r = op_enc(&o, out, sym_data, 2 * 128 + 1);                         /* more than two full batches, not a whole number of blocks */
+#elif ERRCASE == 11
+    r = op_dec(&o, out, sym_data, 128 + BLK + 3);
+#elif ERRCASE == 12
+    r = op_dec(&o, out, sym_data, 64 + 1);
 #endif
     CHECK(r == 0, "an invalid call returns 0");
     CHECK_BYTES_EQ(&ctx, &ctxb, sizeof ctx, "an invalid call leaves the key schedule byte-identical");
